@@ -5,14 +5,14 @@ from run import selftest as W
 from run import witnesses2 as W2
 
 PROPERTY = "C01"
-LEAN_MODULES = ["LccModel.Props.C01", "LccModel.Props.C01Graph", "LccModel.Props.C01Run", "LccModel.Props.C01Expand"]
-PROPS_FILES = ["LccModel/Props/C01.lean", "LccModel/Props/C01Graph.lean", "LccModel/Props/C01Run.lean", "LccModel/Props/C01Expand.lean"]
-NAMESPACES = {"LccModel/Props/C01.lean": "LccModel.C01", "LccModel/Props/C01Graph.lean": "LccModel.C01Graph", "LccModel/Props/C01Run.lean": "LccModel.C01Run", "LccModel/Props/C01Expand.lean": "LccModel.C01Expand"}
+LEAN_MODULES = ["LccModel.Props.C01", "LccModel.Props.C01Graph", "LccModel.Props.C01Run", "LccModel.Props.C01Expand", "LccModel.Props.C01Accept"]
+PROPS_FILES = ["LccModel/Props/C01.lean", "LccModel/Props/C01Graph.lean", "LccModel/Props/C01Run.lean", "LccModel/Props/C01Expand.lean", "LccModel/Props/C01Accept.lean"]
+NAMESPACES = {"LccModel/Props/C01.lean": "LccModel.C01", "LccModel/Props/C01Graph.lean": "LccModel.C01Graph", "LccModel/Props/C01Run.lean": "LccModel.C01Run", "LccModel/Props/C01Expand.lean": "LccModel.C01Expand", "LccModel/Props/C01Accept.lean": "LccModel.C01Accept"}
 DRIVER = "drivers/Run.lean"
 TRUSTED_BASE = RUN_TRUSTED + ["scheduler-only stream: harness/props/_sched.py drives the real run_tasks with synthetic tasks (drivers/Sched.lean)"]
 ASSUMPTIONS = RUN_ASSUMPTIONS + ["Valid P (Lemmas/Graph.lean): sibling suite names distinct incl. the top level (the top level is NOT checked by the real loader: observation in DESIGN), test names distinct per suite, dependencies resolved and acyclic"]
 RULE = 'sched stream: random dependency DAG × behaviours × threads × gates; run stream: generated project (harness/run/gen.py) × nb_threads 1..8 × gate strategy (off/fifo/lifo/random) forcing completion orders × keyboard interrupt (20 %); non-trivial = ≥ 2 tests, ≥ 1 body entered, ≥ 8 events; distinct = hash of the case (project + schedule parameters)'
-EXPLANATION = 'Deadlock freedom, bounded executions and exactly-once handling are Lean theorems for every well-formed task graph; buildTasks of every valid project is well-formed with exactly one task per scheduled test and one begin/end pair per suite (C01Graph); every real run is replayed on the composed model (scheduler × task behaviours × session × writer) and the report folded by the writer model must equal the real report.'
+EXPLANATION = 'Deadlock freedom, bounded executions and exactly-once handling are Lean theorems for every well-formed task graph; buildTasks of every valid project is well-formed with exactly one task per scheduled test and one begin/end pair per suite (C01Graph); every real run is replayed on the composed model (scheduler × task behaviours × session × writer) and the report folded by the writer model must equal the real report.  The replay is itself linked to the theorems: `C01Accept.accepted_trace_is_execution` proves that every trace the acceptor entry point (`RunAccept.replay`, what drivers/Run.lean runs) accepts projects onto an execution of `Sched.step` from `Sched.init` on `graphOf P`, so exactly-once, dependency order, teardown order and the interrupt guarantees provably hold of every accepted real trace (corollaries in Props/C01Accept.lean, non-vacuity on two real traces replayed by the kernel).'
 
 
 def witness(title_prefix):
